@@ -45,6 +45,7 @@ def coverage(prop, executed, rejected, tier):
         "distinct_interleavings": len(inter),
         "ops_executed": int(total.get("ops", 0)),
         "op_histogram": {k[3:]: int(v) for k, v in sorted(total.items()) if k.startswith("op:")},
+        "histories_with_debug_logging": int(total.get("env:debug-logging", 0)),
         "faults_armed_fired": faults,
         "abort_landing_files": {k[6:]: int(v) for k, v in sorted(total.items()) if k.startswith("abort@")},
         "item_families": dict(families),
